@@ -41,8 +41,8 @@ theorem round_of_fits_E (f : Field) (dec : Nat) (fmt c : Char) (hk : f.kind = .f
         Proofs.FloatLaw.replace_single, Proofs.FloatLaw.subst1_length] at hren <;>
       simpa using hren
 
-/-- **Floats in E notation, full law.** For every normal double below `2^1013` in magnitude
-(`2^52 ≤ m < 2^53`, `-1000 ≤ e ≤ 960`) and every E-notation float field (any width, up to
+/-- **Floats in E notation, full law.** For every normal double, from `2^-1022` to the largest
+finite one (`2^52 ≤ m < 2^53`, `-1074 ≤ e ≤ 971`) and every E-notation float field (any width, up to
 twelve declared decimals, any admitted separator) in which the value fits: the text written
 is `size` wide, reads back as the double nearest to the decimal emitted — which is
 `round(x, decimals − ⌊log10 |x|⌋)` — and writing that double gives the same text
@@ -148,7 +148,7 @@ theorem renderLaw_of_domain_FE (f : Field) (v : Val) (h : fieldInDomain f v = tr
 /-- **C01 for layouts with floats in either notation: read-back and text stability.** For every
 layout and value list admitted by `Spec.C01.inDomain` whose non-missing floats are finite
 doubles below `2^1013` in F-notation fields of at most 323 decimals, or zero or normal doubles
-between `2^-948` and `2^1013` in E-notation fields (at most twelve decimals, by the domain): the model's write /
+(`2^-1022` and more) in E-notation fields (at most twelve decimals, by the domain): the model's write /
 read / re-write cycle succeeds, the values read back are the canonical forms, and the
 re-written text is identical to the written one. -/
 theorem main_FE (fs : List Field) (vs : List Val) (h : inDomain fs vs = true)
@@ -226,7 +226,7 @@ theorem clauses_FE (f : Field) (v : Val) (r : List Char) (hd : fieldInDomain f v
 
 /-- **C01 in full, floats in either notation.** For every layout and value list admitted by
 `Spec.C01.inDomain` whose non-missing floats are finite doubles below `2^1013` in F-notation
-fields of at most 323 decimals, or zero or normal doubles between `2^-948` and `2^1013` in
+fields of at most 323 decimals, or zero or normal doubles (`2^-1022` and more) in
 E-notation fields: the model's write / read / re-write cycle satisfies the whole of
 `Spec.C01.holds` —
 values read back are the canonical forms, the re-written text is identical, and every float is
